@@ -75,6 +75,9 @@ def generalise(draw, s, vars_ts, vars_sc, vars_sz, depth=0):
     """a pattern that matches schema s: each sub-term is kept concrete or replaced by a (possibly shared) variable."""
     if s[0] == "SC":
         return ("scalar", ("v", draw(st.sampled_from(vars_sc))) if draw(st.booleans()) else ("c", s[1]))
+    if depth > 0 and draw(st.integers(0, 14)) == 0:
+        # REF[...] / SIGNAL below a collection pattern: on inputs REF is transparent and SIGNAL accepts any time-series
+        return ("signal",) if draw(st.booleans()) else ("ref", generalise(draw, s, vars_ts, vars_sc, vars_sz, depth))
     r = draw(st.integers(0, 9))
     if r == 0 and depth > 0 or r == 1:
         return ("var", draw(st.sampled_from(vars_ts)))
@@ -509,7 +512,7 @@ def check(case, ctx) -> Result:
         if any(special):
             res.labels.append("special_params")
         if o.get("win") is None:
-            if o["err"] == "nomatch" and matches and not any(special):
+            if o["err"] == "nomatch" and matches:
                 res.violations.append(Viol("match_rejected", f"call {[sstr(s) for s in call]}: reported 'no matching overload' but {sorted(matches)} unify ({o.get('msg', '')[:300]})", feats))
             if o["err"] == "ambiguous" and len(matches) < 2 and not any(special):
                 res.violations.append(Viol("ambiguity_invented", f"call {[sstr(s) for s in call]}: reported ambiguous but only {sorted(matches)} unify", feats))
